@@ -306,6 +306,8 @@ func runNestedC12(r *vh.Rand, cfg *vh.Config, val protovalidate.Validator, res *
 		env := theEnum
 		if r.Chance(30) {
 			env = theEnumZ
+		} else if r.Chance(20) {
+			env = oddEnum(vh.Pick(r, oddFirst), 0) // first option merely ends in UNSPECIFIED: an ordinary option
 		}
 		counter := 0
 		kind := "object"
@@ -394,6 +396,12 @@ func runOneofC12(r *vh.Rand, cfg *vh.Config, val protovalidate.Validator, res *v
 		env := theEnum
 		if r.Chance(30) {
 			env = theEnumZ
+		} else if r.Chance(20) {
+			env = oddEnum(vh.Pick(r, oddFirst), 0) // first option merely ends in UNSPECIFIED: an ordinary option
+		}
+		if r.Chance(25) {
+			env.Where = 1 + r.Intn(2) // the enum in another file of the package / in an imported package
+			genAST = false            // several source files: text path (the generator draws AST-only forms otherwise)
 		}
 		var props []Prop
 		for i, k := 0, r.Range(2, 4); i < k; i++ {
